@@ -416,6 +416,73 @@ pub fn c08_views(t: &[u8], out: &mut Vec<Violation>) -> u64 {
 	1
 }
 
+/// Whole-domain collections: insert every URI/IRI of the domain into a BTreeSet / HashSet of
+/// owned values, then look every value up through every Borrow view. With many keys an
+/// ordering or hashing that differs between views sends the search down the wrong branch.
+pub fn c08_collections(dom: &[Vec<u8>], total: &mut Report) -> u64 {
+	use std::collections::{BTreeSet, HashSet};
+	let mut n = 0u64;
+	let r = guard(|| {
+		let mut probs: Vec<(Vec<u8>, String)> = Vec::new();
+		let mut bt: BTreeSet<RiBuf> = BTreeSet::new();
+		let mut hs: HashSet<RiBuf> = HashSet::new();
+		let mut btr: BTreeSet<RiRefBuf> = BTreeSet::new();
+		for t in dom {
+			if !c07_wellformed(Kind::Ri, t) {
+				continue;
+			}
+			bt.insert(ribuf_of(t).unwrap());
+			hs.insert(ribuf_of(t).unwrap());
+			btr.insert(rirefbuf_of(t).unwrap());
+		}
+		for t in dom {
+			if !c07_wellformed(Kind::Ri, t) {
+				continue;
+			}
+			let ri = Ri::new(inp(t).unwrap()).ok().unwrap();
+			let rr = RiRef::new(inp(t).unwrap()).ok().unwrap();
+			if !bt.contains(ri) {
+				probs.push((t.clone(), "BTreeSet<RiBuf>(all).contains(&Ri)".into()));
+			}
+			if !bt.contains(rr) {
+				probs.push((t.clone(), "BTreeSet<RiBuf>(all).contains(&RiRef)".into()));
+			}
+			if !hs.contains(ri) {
+				probs.push((t.clone(), "HashSet<RiBuf>(all).contains(&Ri)".into()));
+			}
+			if !hs.contains(rr) {
+				probs.push((t.clone(), "HashSet<RiBuf>(all).contains(&RiRef)".into()));
+			}
+			if !btr.contains(rr) {
+				probs.push((t.clone(), "BTreeSet<RiRefBuf>(all).contains(&RiRef)".into()));
+			}
+			for (name, found) in extra_collection_lookups(t, &bt, &hs) {
+				if !found {
+					probs.push((t.clone(), name.to_string()));
+				}
+			}
+		}
+		probs
+	});
+	match r {
+		Guard::Ok(probs) => {
+			n += dom.len() as u64;
+			for (t, what) in probs {
+				total.violate(
+					Violation::new("C08", "collections", &what, json!({"fam": fam_name(), "kind": "ri", "a": bytes_json(&t), "b": bytes_json(&t), "note": "looked up in a set holding the whole C08 domain"}))
+						.feat("type", format!("{}::ri", fam_name()))
+						.obs("not found")
+						.exp("an inserted value is found through every Borrow view"),
+				);
+			}
+		}
+		Guard::Panic(pm) => total.violate(
+			Violation::new("C08", "collections", "panic", json!({"fam": fam_name(), "kind": "ri", "a": "", "b": ""})).feat("panic_at", panic_site(&pm)).obs(format!("panic: {pm}")).exp("no panic"),
+		),
+	}
+	n
+}
+
 pub fn c07_replay(input: &Value, prop: &str) -> Vec<Violation> {
 	let mut out = Vec::new();
 	let kind = match input["kind"].as_str().and_then(Kind::parse) {
